@@ -128,6 +128,13 @@ def make_math(P, tier):
     shim += 'extern "C" bool vf_bit_test_u32(std::uint32_t v, std::uint32_t m){ return fcppt::bit::test(v, fcppt::bit::mask<std::uint32_t>{m}); }\n'
     spec += 'function vf_bit_test_u32\n  __CPROVER_assigns()\n  __CPROVER_ensures(__CPROVER_return_value == ((v & m) != 0))\n'
     jobs.append(('vf_bit_test_u32', dict(cls='P', what='bit::test(v, mask) holds exactly when v and mask share a set bit')))
+    for (bn, bt, bw) in (('u8', 'std::uint8_t', 8), ('u16', 'std::uint16_t', 16), ('u64', 'std::uint64_t', 64)):
+        shim += 'extern "C" %s vf_shifted_mask_%s(unsigned b){ return fcppt::bit::shifted_mask<%s>(fcppt::bit::shift_count{b}).get(); }\n' % (bt, bn, bt)
+        spec += 'function vf_shifted_mask_%s\n  __CPROVER_requires(b < %d)\n  __CPROVER_assigns()\n  __CPROVER_ensures((u64)__CPROVER_return_value == ((u64)1 << b))\n' % (bn, bw)
+        jobs.append(('vf_shifted_mask_%s' % bn, dict(cls='P', what='shifted_mask<%s>(b) has exactly bit b set, for every b below the width' % bn)))
+        shim += 'extern "C" bool vf_bit_test_%s(%s v, %s m){ return fcppt::bit::test(v, fcppt::bit::mask<%s>{m}); }\n' % (bn, bt, bt, bt)
+        spec += 'function vf_bit_test_%s\n  __CPROVER_assigns()\n  __CPROVER_ensures(__CPROVER_return_value == (((u64)v & (u64)m) != 0))\n' % bn
+        jobs.append(('vf_bit_test_%s' % bn, dict(cls='P', what='bit::test<%s>(v, mask) holds exactly when v and mask share a set bit' % bn)))
     # ceil_div / div / mod (unsigned, 32 and 64 bit: narrower types are rejected at compile time)
     for (n, t, s, w) in [INTS[5], INTS[7]]:
         for (fn, call, post) in [('ceil_div', 'fcppt::math::ceil_div(a, b)', '*out == a / b + (a % b != 0 ? 1 : 0)'),
